@@ -184,7 +184,11 @@ func (ctx Ctx) coqFuncType(e *ast.FuncType) coq.Type {
 func (ctx Ctx) coqType(e ast.Expr) coq.Type {
 	switch e := e.(type) {
 	case *ast.Ident:
-		ctx.dep.addDep(e.Name)
+		if _, isParam := ctx.typeOf(e).(*types.TypeParam); !isParam {
+			// (a type parameter is bound by the definition itself, whatever
+			// top-level declaration has the same name)
+			ctx.dep.addDep(e.Name)
+		}
 		// Struct typing is a bit funky.
 		if ctx.isGlobalVar(e) && !ctx.isStruct(e) {
 			return coq.TypeIdent(e.Name)
